@@ -158,6 +158,7 @@ def _mk_int(float_mode):
         if isinstance(x, (Sym, Fraction)):
             return nplite.trunc(x)
         return builtins.int(x)
+    int_._vf_kind = 'i'
     return int_
 
 
@@ -171,6 +172,7 @@ def _mk_float(float_mode):
                 return Fraction(x)
             return builtins.float(x)
         return nplite._cast_scalar(x, nplite.float64)
+    float_._vf_kind = 'f'
     return float_
 
 
